@@ -22,13 +22,14 @@ THEOREMS = [
     "C19_crlf_terminated_line",
     "C19_archive_complete_for_replay",
     "C19_unterminated_last_entry_archived",
+    "C19_results_cover_every_eligible",
 ]
 RULE = ("real directories under a per-process configuration (SNELDB_CONFIG): WAL directory populations (canonical, aliased and "
         "non-matching file names, directories, empty files, files with blank / torn / foreign / invalid-UTF-8 lines, entries with "
         "null, bool, i64/u64 edge, float, string, nested JSON payload values in several spellings) x keep_from_log_id x fault "
         "patterns of the archive directory (missing, a regular file, a directory squatting on the predicted archive name of a subset "
         "of the files, pre-existing garbage / decodable archive of the same name, every write failing after File::create via RLIMIT_FSIZE=0) x conservative and plain mode x one or two cleanup "
-        "rounds with id reuse, log files given as raw bytes with every final-line shape (complete entry without newline, CRLF, torn prefix, whitespace only, JSON followed by garbage, empty file, only newlines, a kept \\r) and interior blank / foreign / non-UTF-8 / 9-70 KB lines with the real WAL replay of each file observed before the cleanup, archive_log called directly, recovery over foreign archive directory contents; plus the MessagePack trip "
+        "rounds with id reuse, log files given as raw bytes with every final-line shape (complete entry without newline, CRLF, torn prefix, whitespace only, JSON followed by garbage, empty file, only newlines, a kept \\r) and interior blank / foreign / non-UTF-8 / 9-70 KB lines with the real WAL replay of each file observed before the cleanup, archive_log called directly, recovery over foreign archive directory contents; backlogs of 9..40 eligible logs in one cleaner pass (built up in bursts over passes that fail as a whole while the archive root is a regular file / a directory squats on the oldest log's archive name / every write fails, then repaired; or simply present), with earlier healthy passes before, cutoffs at the end of, inside and below the backlog and recover_all checked after every pass; plus the MessagePack trip "
         "of every ScalarValue variant.  A case is non-trivial when a cleanup deleted a file, an injected fault applied, or recovery "
         "returned entries; distinct by (scenario kind, implementation output)")
 ASSUMPTIONS = [
@@ -40,7 +41,7 @@ ASSUMPTIONS = [
 ]
 TRUSTED = [
     "Coq 8.16.1 kernel + coqc; vm_compute for closed witnesses; no native_compute",
-    "translator tools/params/p40_walarch.py (file-name formats, pad width, id filter, the canonical-name condition of both scans, which directory the cleaner's archiver reads, the recovery sort and its key format, extension filter, the abort-on-failure branch and File::create are read from the Rust text)",
+    "translator tools/params/p40_walarch.py (file-name formats, pad width, id filter, the canonical-name condition of both scans, which directory the cleaner's archiver reads, the recovery sort and its key format, extension filter, the abort-on-failure branch, File::create and the shape of archive_logs_up_to - one archive_log per scan hit, results returned uncut, no take/truncate/early exit - are read from the Rust text)",
     "extraction: ExtrOcamlBasic only; ocaml/driver.ml, conv.ml, p_walarch.ml (parsing/printing, fixture state)",
     "correspondence harness /verif/harness (vharn fn walarch_run / walarch_rt) built against /repo with --cfg sneldb_verif, one child process per configuration",
     "python oracle: CPython json / struct / base64 (independent of model and implementation)",
@@ -663,6 +664,73 @@ def scenario(rng, kind):
         for nm in names:
             toks.append(f"RPL={hb(nm)}")
         toks += [f"C={nfiles}", "REC"]
+    elif kind == "backlog":
+        # a backlog of closed logs: many (9..40) eligible files in ONE cleaner pass.  In normal operation every flush makes
+        # one more file eligible and the pass removes it; a backlog builds up while the archive volume is out of order
+        # (every pass fails as a whole and correctly deletes nothing) and is worked off by the first pass after the repair,
+        # or simply exists (many small logs below the cutoff).  Outage mechanisms: the archive root is a regular file
+        # (repaired by R=d), a directory squats on the archive name of the oldest log (repaired by AR: the other logs are
+        # archived again and again meanwhile, so the backlog is a mix of already-archived and never-archived logs), every
+        # write fails late (F=0, repaired by F=-: truncated leftovers under all archive names), or no outage at all.  Logs
+        # are added in bursts with a pass after each; cutoffs lie at the end, in the middle and below the backlog; recovery
+        # is observed after every pass that may delete.  Judged by the model (same command stream) and by the oracle.
+        mech = rng.choice(["none", "rootfile", "rootfile", "squat", "squat", "starve", "missing"])
+        total = rng.choice([9, 10, 12, 13, 16, 17, 20, 24]) if rng.chance(4, 5) else rng.range(25, 40)
+        nid = rng.choice([0, 0, 0, rng.below(30), 99990])
+
+        def small_file():
+            ts = 1700000000 + rng.below(50)
+            ls = [gen_entry(rng, ids, ts + j) for j in range(rng.choice([0, 1, 1, 2, 3]))]
+            if rng.chance(1, 10):
+                ls.insert(rng.below(len(ls) + 1), (rng.choice(BLANK), "B") if rng.chance(1, 2) else (rng.choice(JUNK), "J"))
+            return ls
+
+        def burst(k):
+            nonlocal nid
+            out_ids = []
+            for _ in range(k):
+                put(canonical(nid), small_file())
+                out_ids.append(nid)
+                nid += 1 if rng.chance(9, 10) else rng.range(2, 4)
+            return out_ids
+
+        toks.append("R=f" if mech == "rootfile" else "R=m" if mech == "missing" else "R=d")
+        done = []          # logs of an earlier, healthy pass: archived and deleted before the outage
+        if mech in ("squat", "starve", "none") and rng.chance(1, 2):
+            done = burst(rng.range(1, 4))
+            toks += [f"C={nid}", "REC"]
+        blog = burst(rng.range(1, 3))
+        if mech == "squat":
+            toks.append(f"A={hb(pred(canonical(blog[0])))}=d")
+        elif mech == "starve":
+            toks.append("F=0")
+        # the outage: bursts of new logs, a pass after some of them
+        while len(blog) < total:
+            blog += burst(min(total - len(blog), rng.choice([1, 1, 2, 3, 5, 8, total])))
+            if mech in ("rootfile", "squat", "starve") and rng.chance(1, 3):
+                toks.append(f"C={rng.choice([nid, nid, blog[-1], U64])}")
+        if mech in ("rootfile", "squat", "starve") and rng.chance(2, 3):
+            toks += [f"C={nid}", "REC"]
+        # the repair
+        if mech == "rootfile":
+            toks.append("R=d")
+        elif mech == "squat":
+            toks.append(f"AR={hb(pred(canonical(blog[0])))}")
+        elif mech == "starve":
+            toks.append("F=-")
+        if rng.chance(1, 4):
+            burst(1)                                   # the active log
+        # the passes after the repair: cutoffs inside, at the end of and below the backlog
+        cuts = []
+        if rng.chance(1, 2):
+            cuts.append(blog[rng.range(len(blog) // 2, len(blog) - 1)])     # in the middle, more than half eligible
+        if rng.chance(1, 6):
+            cuts.append(blog[rng.below(len(blog))])
+        cuts.append(rng.choice([blog[-1] + 1, blog[-1] + 1, nid, U64]))
+        if rng.chance(1, 5):
+            cuts.append(rng.choice([0, blog[0], nid]))
+        for k in cuts:
+            toks += [f"C={k}", "REC"]
     elif kind == "zoo":
         toks.append("R=d")
         names = [b"a.zst", b"x.zst", b".zst", b"noext", b"b.ZST", b"c.wal.zst", b"wal-00000-1-1.wal.zst", b"wal-00000-1-1.wal.zst.bak",
@@ -715,6 +783,11 @@ def cases(rng, tier):
     # the MessagePack trip of single values
     for _ in range(300 if tier == "quick" else 10000):
         out.append({"kind": "rt", "line": "walarch_rt " + mem_scalar(rng)})
+    # backlogs: 9..40 eligible logs in one cleaner pass, built up over failing passes and worked off after the repair
+    # (generated last so that the streams above are the ones of earlier runs)
+    for _ in range(90 if tier == "quick" else 4000):
+        mode, toks = scenario(rng, "backlog")
+        out.append({"kind": "backlog", "line": f"walarch_run {mode} " + " ".join(toks)})
     return out
 
 
@@ -810,6 +883,7 @@ def judge(c, impl):
     starve = False     # F=0: every write to a regular file fails (after File::create truncated the target)
     last_rec = None
     rec_is_last = False
+    mid_recs = []      # every recovery observed: (output, round it follows, number of logs deleted so far)
     for tok in t[2:]:
         rec_is_last = False
         if tok == "XD":
@@ -822,6 +896,7 @@ def judge(c, impl):
             last_rec = obs[oi][4:]
             oi += 1
             rec_is_last = True
+            mid_recs.append((last_rec, rnd, len(deleted)))
             continue
         k, v = tok.split("=", 1)
         if k == "R":
@@ -997,6 +1072,25 @@ def judge(c, impl):
                     fails.append((f"recover_all does not return the entries of log {d['name'].decode('utf-8', 'replace')} in log order", None))
                     break
                 pos = found + len(es)
+    # P7: the same after EVERY cleaner pass, not only at the end of the history: what recover_all returned right after
+    # a pass contains the entries of every log deleted up to then, each log's block in order, blocks in log order
+    # (a later pass may well repair a hole by archiving again; the property speaks about the moment of the deletion)
+    if mode == "c" and not fails:
+        for out, r, ndel in (mid_recs[:-1] if rec_is_last else mid_recs):
+            if out == "err":
+                continue
+            rec = out.split("|") if out else []
+            pos = 0
+            for d in sorted([d for d in deleted[:ndel] if d["entries"] is not None], key=lambda d: (d["id"], d["round"])):
+                es = d["entries"]
+                found = next((s0 for s0 in range(pos, len(rec) - len(es) + 1) if rec[s0:s0 + len(es)] == es), None)
+                if found is None:
+                    fails.append((f"after round {r}: recover_all does not return the entries of the deleted log "
+                                  f"{d['name'].decode('utf-8', 'replace')} in log order", None))
+                    break
+                pos = found + len(es)
+            if fails:
+                break
     return fails
 
 
@@ -1047,6 +1141,6 @@ def nontrivial_key(c, impl):
         return None
     if c["line"].startswith("walarch_rt"):
         return ("rt", impl)
-    if ":a:" in impl or "L:" in impl or c["line"].split()[1] == "p" or c.get("kind") in ("squat", "rootfile", "badfile", "retry", "starve"):
+    if ":a:" in impl or "L:" in impl or c["line"].split()[1] == "p" or c.get("kind") in ("squat", "rootfile", "badfile", "retry", "starve", "backlog"):
         return (c.get("kind"), impl)
     return None
